@@ -362,7 +362,7 @@ func runCase(c *core.Case) {
 		b := 10
 		tree = genTree(r, 2, &b)
 	}
-	mode := []string{"download", "download-script", "upload", "upload-prefilled", "roundtrip", "upload-cut-retry", "download-commented"}[c.Index%7]
+	mode := []string{"download", "download-script", "upload", "upload-prefilled", "roundtrip", "upload-cut-retry", "download-commented", "download-alias"}[c.Index%8]
 	folder := "Folder " + fmt.Sprint(r.Intn(100))
 	var parent []string
 	if r.Bool() {
@@ -395,6 +395,17 @@ func runCase(c *core.Case) {
 		download(c, srv, cl, folder, parent, tree, false)
 	case "download-script":
 		download(c, srv, cl, folder, parent, tree, true)
+	case "download-alias":
+		// the requested folder is an alias (made through the protocol) of the real folder
+		afs := []rc.Field{rc.FS(201, folder), rc.F(212, rc.PathS("Uploads"))}
+		if len(parent) > 0 {
+			afs = append(afs, rc.F(202, rc.PathS(parent...)))
+		}
+		if rep, ok := cl.Call(209, afs...); !ok || rep.Err != 0 {
+			c.Unsure("make-alias refused: %v", rep)
+			return
+		}
+		download(c, srv, cl, folder, []string{"Uploads"}, tree, false)
 	case "download-commented":
 		// somebody has set comments on some of the files (through the protocol, which stores them in hidden side
 		// files next to the files); the folder must download exactly as without them
